@@ -192,8 +192,14 @@ DashAdds(g) ==         \* adds at an index become appends
                       THEN [g[i] EXCEPT !.path = [j \in DOMAIN g[i].path |-> IF j = Len(g[i].path) THEN DashTok ELSE g[i].path[j]]]
                       ELSE g[i]]
 
+(* an index token written in a non-canonical way ("01"): RFC 6901 does not read it as an array index *)
+LeadingZero(t) == IF t.i >= 0 THEN Tok("0" \o ToString(t.i), -1) ELSE t
+ZeroPad(g) == [i \in DOMAIN g |-> IF g[i].path = <<>> THEN g[i]
+                 ELSE [g[i] EXCEPT !.path = [j \in DOMAIN g[i].path |-> IF j = Len(g[i].path) THEN LeadingZero(g[i].path[j]) ELSE g[i].path[j]]]]
+
 Variations(gs, x) ==
   {gs}
+  \cup {[i \in DOMAIN gs |-> IF i = k THEN ZeroPad(gs[i]) ELSE gs[i]] : k \in DOMAIN gs}
   \cup {[i \in DOMAIN gs |-> IF i = k THEN ShiftGroup(gs[i], delta) ELSE gs[i]] : k \in DOMAIN gs, delta \in {-1, 1}}
   \cup {SubSeq(gs, 1, k - 1) \o SubSeq(gs, k + 1, Len(gs)) : k \in DOMAIN gs}
   \cup {[i \in DOMAIN gs |-> IF i = k THEN DropContext(gs[i]) ELSE gs[i]] : k \in DOMAIN gs}
